@@ -713,7 +713,7 @@ func genCase(t *rapid.T) Case {
 			Label: rapid.SampledFrom([]string{"a", "A", "b", "B", "ab", "", "Z"}).Draw(t, "label")})
 	}
 	if rapid.IntRange(0, 2).Draw(t, "hasfilter") == 0 {
-		ft := rapid.SampledFrom([]string{"", "apple", "APPLE", "pie banana", "\"apple pie\"", "\"\"", "zzz", "a", "\"a b\" cherry", "x\"y"}).Draw(t, "filtertext")
+		ft := rapid.SampledFrom([]string{"", "apple", "APPLE", "pie banana", "\"apple pie\"", "\"\"", "zzz", "a", "\"a b\" cherry", "x\"y", " ", "  ", "\t"}).Draw(t, "filtertext")
 		c.Req.FilterText = &ft
 		switch rapid.IntRange(0, 3).Draw(t, "filterfields") {
 		case 1:
